@@ -323,6 +323,9 @@ executeProcess:
 			if err == nil {
 				p.State.Set(state.Executing)
 				p.ExitNum, err = fork.Execute(fn.Block)
+			} else {
+				// the function isn't executed so release the FID registered by Fork
+				GlobalFIDs.Deregister(fork.Id)
 			}
 		}
 
